@@ -217,6 +217,9 @@ func hostileVal(v val) bool {
 	if !v.Str {
 		return false
 	}
+	if v.S == "" {
+		return true
+	}
 	if strings.Contains(v.S, "_") || strings.Contains(v.S, "nil") || v.S == "0" {
 		return true
 	}
@@ -816,6 +819,11 @@ var (
 func drawPart(rt *rapid.T, t reflect.Type, label string, composite, crowd bool) val {
 	if isStrType(t) {
 		s := rapid.SampledFrom(strPool).Draw(rt, label)
+		if composite && rapid.IntRange(0, 8).Draw(rt, label+".empty") == 0 {
+			// a zero member of a composite key: gorm takes a composite key as set as
+			// soon as one member is non-zero, so ("", "x") is a key like any other
+			return val{Str: true}
+		}
 		if crowd { // more distinct keys than the alphabet has
 			s += []string{"", "#1", "#2", "_3"}[rapid.IntRange(0, 3).Draw(rt, label+".suffix")]
 		}
@@ -884,8 +892,19 @@ type roleGuard struct {
 	feed map[role]bool
 }
 
+// allNull: every member is NULL (gorm skips such a key; a pointer to "" or 0 is
+// a set member to gorm, so partly-NULL tuples with empty members take part).
+func (t tuple) allNull() bool {
+	for _, v := range t {
+		if !v.Null {
+			return false
+		}
+	}
+	return true
+}
+
 func (rg *roleGuard) collides(ro role, t tuple) string {
-	if !rg.feed[ro] || len(t) < 2 || t.allBlank() {
+	if !rg.feed[ro] || len(t) < 2 || t.allNull() {
 		return ""
 	}
 	txt := t.idText()
@@ -904,7 +923,7 @@ func (rg *roleGuard) collides(ro role, t tuple) string {
 }
 
 func (rg *roleGuard) add(ro role, t tuple) {
-	if !rg.feed[ro] || len(t) < 2 || t.allBlank() {
+	if !rg.feed[ro] || len(t) < 2 || t.allNull() {
 		return
 	}
 	if rg.seen[ro] == nil {
@@ -959,7 +978,7 @@ func genGraph(rt *rapid.T, f *family, l load) *graph {
 					pk = alts[rapid.IntRange(0, len(alts)-1).Draw(rt, "resplit.pick")]
 				}
 			}
-			if seen[pk.String()] {
+			if seen[pk.String()] || pk.allBlank() {
 				continue
 			}
 			if excluded(rg.collides(roleOf(m.name, m.pk), pk)) {
@@ -2372,6 +2391,13 @@ func classesOf(g *graph, l load) []string {
 			}
 			if !m.isJoin && tupleOf(r, m.pk).hostile() {
 				set["data:hostile-key"] = true
+			}
+			if pk := tupleOf(r, m.pk); !m.isJoin && len(pk) > 1 {
+				for _, v := range pk {
+					if v.zero() {
+						set["data:composite-key-with-zero-member"] = true
+					}
+				}
 			}
 		}
 	}
